@@ -258,9 +258,11 @@ inline bool decode_block_contents(DBlock &b, std::string &err) {
   return true;
 }
 
-inline bool decode_block_at(const bytes &img, uint64_t off, uint64_t limit, int version, int algo, DBlock &b, std::string &err) {
-  const uint8_t *d = (const uint8_t *)img.data();
+// `img` holds the file's bytes from absolute offset `base` onward (base = 0: the whole file); `off` and `limit` are absolute
+inline bool decode_block_at(const bytes &img, uint64_t off, uint64_t limit, int version, int algo, DBlock &b, std::string &err, uint64_t base = 0) {
+  const uint8_t *d = (const uint8_t *)img.data() - base;  // never dereferenced below `base`
   b.offset = off;
+  if (off < base) { err = "block offset " + std::to_string(off) + " lies before the table's first byte " + std::to_string(base); return false; }
   if (off >= limit) { err = "block offset beyond limit"; return false; }
   if (version == 1) {
     if (limit - off < 8) { err = "truncated v1 block header"; return false; }
@@ -284,7 +286,7 @@ inline bool decode_block_at(const bytes &img, uint64_t off, uint64_t limit, int 
   return decode_block_contents(b, err);
 }
 
-inline DFile decode_file(const bytes &img) {
+inline DFile decode_file(const bytes &img, uint64_t base = 0) {
   DFile f;
   if (img.size() < 512) { f.err = "shorter than a trailer"; return f; }
   const uint8_t *d = (const uint8_t *)img.data();
@@ -296,15 +298,15 @@ inline DFile decode_file(const bytes &img) {
   for (int i = 0; i < 9; i++) f.f[i] = get_le64(t + 8 * i);
   for (int i = 72; i < 508; i++)
     if (t[i]) f.padding_zero = false;
-  uint64_t body = img.size() - 512;
-  if (f.f[0] >= body) { f.err = "index offset outside the file body"; return f; }
-  if (!decode_block_at(img, f.f[0], body, f.version, NONE, f.index, f.err)) { f.err = "index: " + f.err; return f; }
+  uint64_t body = base + img.size() - 512;  // absolute offset of the trailer
+  if (f.f[0] >= body || f.f[0] < base) { f.err = "index offset " + std::to_string(f.f[0]) + " outside the file body [" + std::to_string(base) + ", " + std::to_string(body) + ")"; return f; }
+  if (!decode_block_at(img, f.f[0], body, f.version, NONE, f.index, f.err, base)) { f.err = "index: " + f.err; return f; }
   for (auto &ie : f.index.entries) {
     uint64_t off;
     size_t c = get_varint((const uint8_t *)ie.val.data(), ie.val.size(), off);
     if (!c || c != ie.val.size()) { f.err = "index value is not exactly one varint"; return f; }
     DBlock b;
-    if (!decode_block_at(img, off, f.f[0], f.version, (int)f.f[2], b, f.err)) return f;
+    if (!decode_block_at(img, off, f.f[0], f.version, (int)f.f[2], b, f.err, base)) return f;
     f.data.push_back(std::move(b));
   }
   f.first_block_off = f.data.empty() ? f.f[0] : f.data[0].offset;
